@@ -711,13 +711,14 @@ func Run(c *core.Ctx) {
 		if tg.gofn.IsValid() {
 			stream = "wellformed-" + tg.name
 			for i := 0; i < nwf; i++ {
-				if !c.Take(stream, i) {
+				if !c.Mine(stream, i) {
 					continue
 				}
 				args := wellFormedArgs(c.Rng(stream, i), tg.gofn.Type())
 				if slowOrder(tg.name, args) {
 					continue
 				}
+				c.Take(stream, i)
 				outcome["wellformed:"+h.judge(stream, i, tg, args)]++
 			}
 		}
@@ -788,13 +789,14 @@ func (h *harness) throughECAL(ts []*target) {
 		}
 		stream := "ecalwf-" + tg.name
 		for i := 0; i < nwf; i++ {
-			if !c.Take(stream, i) {
+			if !c.Mine(stream, i) {
 				continue
 			}
 			args := wellFormedArgs(c.Rng(stream, i), tg.gofn.Type())
 			if slowOrder(tg.name, args) {
 				continue
 			}
+			c.Take(stream, i)
 			outcome["wellformed:"+h.judgeECAL(erp, stream, i, tg, args)]++
 		}
 	}
